@@ -31,6 +31,8 @@ struct macro {
 	char *name;
 	/* whether or not this macro is ineligible for expansion */
 	bool hide;
+	/* number of invocations of this macro whose arguments are being read */
+	int busy;
 	/* parameters of function-like macro */
 	struct macroparam *param;
 	size_t nparam;
@@ -218,6 +220,7 @@ define(void)
 	m = xmalloc(sizeof(*m));
 	m->name = tokencheck(&tok, TIDENT, "after #define");
 	m->hide = false;
+	m->busy = 0;
 	t = arrayadd(&repl, sizeof(*t));
 	scan(t);
 	if (t->kind == TLPAREN && !t->space) {
@@ -297,8 +300,14 @@ undef(void)
 	m = *entry;
 	if (m) {
 		free(name);
-		free(m->param);
-		free(m->token);
+		/*
+		a directive between the parentheses of an invocation is undefined
+		(C11 6.10.3p11), but the invocation still reads its macro
+		*/
+		if (!m->busy && !m->hide) {
+			free(m->param);
+			free(m->token);
+		}
 		*entry = NULL;
 	}
 	scan(&tok);
@@ -493,6 +502,7 @@ expandfunc(struct macro *m)
 	depth = macrodepth;
 	tok = (struct array){0};
 	arg = xreallocarray(NULL, m->nparam, sizeof(*arg));
+	++m->busy;
 	t = rawnext();
 	for (i = 0; i < m->nparam; ++i) {
 		p = &m->param[i];
@@ -553,6 +563,7 @@ expandfunc(struct macro *m)
 		t += arg[i].ntoken;
 	}
 	m->arg = arg;
+	--m->busy;
 }
 
 static void
